@@ -50,7 +50,7 @@ class ExportSave(Contract):
         g = lambda f: st.heap.get(f, res.z)
         name = lambda s: st0.heap.get("name", s.z)
         if isinstance(t, data.SaveMode):
-            got = st.ghost.get(("fld", "mode", res.z.get_id()))
+            got = st.ghost.get(("fld", "mode", zid(res.z)))
             return got == getattr(vsp.Save.SaveMode, t.name)
         if isinstance(t, SRef):
             return g("signal") == name(t)
